@@ -344,6 +344,7 @@ func c18(c *core.Check) {
 	c18ViewBoxSize(c)
 	c18MissingSizeIsAuto(c)
 	c18UseWithoutHref(c)
+	c18PathIsCopied(c)
 	r3 := c.Rule("R3", "no call passes two same-typed arguments under each other's parameter names (swapped arguments): every pair of arguments named after the callee's parameters is aligned with them", 96)
 	argNameRule(c, r3, "svg", nil, 90)
 }
